@@ -52,17 +52,17 @@ FLOORS = {'quick': {'__nontrivial__': 3000, 'kind:tree': 2000, 'kind:pair': 350,
                     'mutation-steps': 12000, 'reached-nested': 2000, 'has:star-part': 500, 'pair:equal': 2000, 'pair:unequal': 14000,
                     'plan:steps>=2': 110, 'results-hashed': 1200, 'step-pairs': 1600, 'variant-planned': 90, 'mut:dict-set-new': 60,
                     'mut:parts-item': 500, 'mut:alias': 1200, 'mut:flip-parentheses': 1500, 'mut:list-pop': 500, 'mut:set-field': 4000,
-                    'relation:ws-variant': 400, 'relation:column-def': 70, 'origin:dotname': 350, 'origin:oddpart': 1, 'has:str-star-last': 1,
-                    'kind:twin': 1, 'twin:sub-vs-base': 1, 'twin:sub-vs-base-agree': 1, 'twin:same-class-equal': 1,
-                    'twin:shapes>=2': 1, 'result-pairs': 1},
+                    'relation:ws-variant': 400, 'relation:column-def': 70, 'origin:dotname': 350, 'origin:oddpart': 900, 'has:str-star-last': 80,
+                    'kind:twin': 220, 'twin:sub-vs-base': 300, 'twin:sub-vs-base-agree': 160, 'twin:same-class-equal': 750,
+                    'twin:shapes>=2': 110, 'result-pairs': 2000},
           'thorough': {'__nontrivial__': 9000, 'kind:tree': 6000, 'kind:pair': 1000, 'kind:plan': 1600, 'planned': 1600,
                        'mutation-steps': 36000, 'reached-nested': 6000, 'has:star-part': 1500, 'pair:equal': 6000, 'pair:unequal': 42000,
                        'plan:steps>=2': 330, 'results-hashed': 3600, 'step-pairs': 4800, 'variant-planned': 270, 'mut:dict-set-new': 180,
                        'mut:parts-item': 1500, 'mut:alias': 3600, 'mut:flip-parentheses': 4500, 'mut:list-pop': 1500,
                        'mut:set-field': 12000, 'relation:ws-variant': 1200, 'relation:column-def': 70, 'origin:dotname': 350,
-                       'origin:oddpart': 1, 'has:str-star-last': 1, 'kind:twin': 1, 'twin:sub-vs-base': 1,
-                       'twin:sub-vs-base-agree': 1, 'twin:same-class-equal': 1, 'twin:shapes>=2': 1, 'result-pairs': 1}}
-N = {'quick': 700, 'thorough': 8000}
+                       'origin:oddpart': 9000, 'has:str-star-last': 350, 'kind:twin': 900, 'twin:sub-vs-base': 600,
+                       'twin:sub-vs-base-agree': 320, 'twin:same-class-equal': 2400, 'twin:shapes>=2': 300, 'result-pairs': 9000}}
+N = {'quick': 740, 'thorough': 8400}
 
 _LEX = {}
 _SPANS = {}
@@ -996,8 +996,7 @@ def fill_ws(t, fill):
 
 @st.composite
 def cases(draw):
-    kind = draw(st.sampled_from(['tree', 'tree', 'tree', 'pair', 'pair', 'plan', 'plan', 'tree', 'tree', 'tree', 'pair', 'pair', 'plan', 'plan',
-                                 'oddpart', 'twin']))
+    kind = draw(st.sampled_from(['tree', 'tree', 'tree', 'pair', 'pair', 'plan', 'plan'] * 3 + ['oddpart', 'twin']))
     if kind == 'oddpart':
         # a name that follows a dot in a corpus statement replaced by a quoted odd part (`*`, `.`, a keyword ...)
         d = draw(st.sampled_from(corpus.DIALECTS))
